@@ -352,7 +352,7 @@ def zlist(xs):
 
 
 COQ_HEADER = ("From ZK Require Import Model.Field Model.Zq Model.QBls Model.Pedersen Model.PS Model.Schnorr Model.Range "
-              "Model.Abacus Model.Amount Model.Ids Model.Wire Model.Codecs Model.Run.\n"
+              "Model.Abacus Model.Amount Model.Ids Model.Wire Model.Codecs Model.Customer Model.Run.\n"
               "Open Scope Z_scope.\n")
 
 
